@@ -15,7 +15,7 @@ func init() {
 		ID:        "C09",
 		Technique: "typestate over the reader loop (size test before every read, after every append, never between a read and the next parse), guard dominance, compiler BCE report",
 		Explanation: "Statically decidable part of 'packet reassembly depends only on the byte stream and is memory-bounded': " +
-			"(R1) memory bound: every transport read in the reader loop is preceded by a passed size test of the unparsed buffer against the configured maximum; the buffer grows only geometrically from its own capacity; every append to the packet is followed by a size test before the next frame is parsed; a zero maximum is replaced by a positive constant; " +
+			"(R1) memory bound: every transport read in the reader loop is preceded by a passed size test of the unparsed buffer against the configured maximum; the buffer grows only behind a free-space test and to a bounded function of its own size and the configured maximum; every append to the packet is covered by a size test (after it, or of len(pkt.Data)+len(fr.Data) before appending exactly fr.Data) before the next frame is parsed; a zero maximum is replaced by a positive constant; " +
 			"(R2) control marking and discard-on-new-id: the packet's control flag is or-ed with each frame's, a frame with a new id resets the packet to that frame's id/kind/control with empty data; " +
 			"(R3) measure-after-parse: no size test on the read buffer between a transport read and the next ParseFrame (a test there measures whatever the read returned, so the verdict would depend on the read partition); " +
 			"(R4) the per-packet limit measures the current packet only: the test is evaluated after the new-id discard and the append, and involves only the packet's own length; " +
